@@ -102,7 +102,8 @@ def expect(g, tb, data, skip_ws=True, skip_nl=True, ctx_mode=None, matchers=None
         if a[0] == 'sh':
             _, st, t, p = a
             term = g.terms[t]; tk = lx.toks[p]
-            if term.typed or term.kind == 'k':
+            if term.typed == 'n': pass
+            elif term.typed or term.kind == 'k':
                 v = fresh(); tokval[p] = v
                 ev.append('t%d:%d:%d=%d;' % (t, tk[1], tk[2], v))
             trace.append(('sh', sm(st), data[tk[1]:tk[1] + tk[2]].decode('latin-1')))
@@ -117,7 +118,8 @@ def expect(g, tb, data, skip_ws=True, skip_nl=True, ctx_mode=None, matchers=None
                     args.append('e,')
                 else:
                     tk = lx.toks[kid.tok]; term = g.terms[kid.term]
-                    if term.typed or term.kind == 'k': args.append('T%d:%d:v%d,' % (tk[3], tk[4], tokval[kid.tok]))
+                    if term.typed == 'n': args.append('n%d:%d,' % (tk[3], tk[4]))
+                    elif term.typed or term.kind == 'k': args.append('T%d:%d:v%d,' % (tk[3], tk[4], tokval[kid.tok]))
                     elif term.kind == 'c': args.append('c%d:%d:%d,' % (tk[3], tk[4], ord(term.text)))
                     else: args.append('s%d:%d:%d:%d,' % (tk[3], tk[4], tk[1], tk[2]))
             vt = g.vtypes[rule.lhs]
@@ -166,9 +168,9 @@ node_val = {}
 def kid_val(kid): return node_val[id(kid)]
 
 import re
-_POS = re.compile(r'([csT])(\d+):(\d+):')
+_POS = re.compile(r'([csTn])(\d+):(\d+)[:,]')
 def mask_positions(events):
-    return _POS.sub(lambda m: m.group(1) + '_:_:', events)
+    return _POS.sub(lambda m: m.group(1) + '_:_' + m.group(0)[-1], events)
 def positions(events):
     return [(m.group(1), int(m.group(2)), int(m.group(3))) for m in _POS.finditer(events)]
 
